@@ -24,7 +24,7 @@ RULE = ('explicit-state BFS over histories; in every distinct concrete state eve
 
 FLAG_OPS = ('filter_first', 'filter_last', 'filter_pred', 'filter_md', 'filter_none', 'filter_all',
             'remove_empty', 'transform2', 'transform_zero', 'norm', 'rank', 'pa', 'rename_long',
-            'rename_partial')
+            'rename_partial', 'rename_swap', 'rename_rot')
 _LAST_WATCH = []
 
 
